@@ -153,3 +153,60 @@ CONTRACTS.append(Contract(
 ))
 
 MUTANTS.append(("bcrypt builtin loader forgets to import raw_bcrypt", B, "        global _builtin_bcrypt\n        from passlib.crypto._blowfish import raw_bcrypt as _builtin_bcrypt\n", "        global _builtin_bcrypt\n", "refute", "_BuiltinBackend"))
+
+
+# ---- the lazy-loading stub dispatches to the loaded backend, exactly once, with the caller's secret ----------------
+def _nobackend_setup(it, args):
+    from pyvc.symexec import ClassRef
+
+    bref = ClassRef.get(B, "bcrypt")
+    bref.override_bases = None  # before loading: (_NoBackend, _BcryptCommon), as in the source
+    self = args["self"]
+
+    def load(i, a, k):
+        # BackendMixin.set_backend -> SubclassBackendMixin._set_backend rebinds bcrypt.__bases__ to the loaded mixin
+        bref.override_bases = [ClassRef.get(B, "_BcryptBackend"), ClassRef.get(B, "_BcryptCommon")]
+        i.run.ghost["loaded"] = i.run.ghost.get("loaded", 0) + 1
+
+    def reentered(i, a, k):
+        i.run.ghost["reentered"] = True
+        return SStr(z3.String("wrapped(secret)"), "str")
+
+    def hashpw(i, a, k):
+        i.run.ghost.setdefault("hashpw", []).append(i.resolve(a[0]))
+        cfg = i.to_z3(a[1])
+        tail = z3.String(i.run.fresh("digest31"))
+        i.run.assume(z3.And(z3.Length(tail) == 31, i.all_codes_below(tail, 128)))
+        return SStr(z3.Concat(cfg, tail), "bytes")
+
+    self.fields["_stub_requires_backend"] = SStub(load, "_stub_requires_backend (loads the bcrypt-package backend)")
+    # the most-derived class (bcrypt_sha256) wraps _calc_checksum; modelled as an instance attribute so that only a
+    # dynamic ``self._calc_checksum`` can reach it, never a super() lookup
+    self.fields["_calc_checksum"] = SStub(reentered, "bcrypt_sha256._calc_checksum (pre-hashing wrapper)")
+    self.fields["_prepare_digest_args"] = SStub(lambda i, a, k: (a[0], "2b"), "_prepare_digest_args")
+    self.fields["_get_config"] = SStub(lambda i, a, k: SStr(z3.String("config"), "bytes"), "_get_config")
+    it.genv.vars["_bcrypt"] = SObj("bcrypt package", fields={"hashpw": SStub(hashpw, "bcrypt.hashpw")})
+    return None
+
+
+def _nobackend_post(it, env):
+    g = it.run.ghost
+    calls = g.get("hashpw", [])
+    if g.get("reentered") or g.get("loaded") != 1 or len(calls) != 1:
+        return False
+    secret = it.to_z3(env.lookup("secret"))
+    return it.to_z3(calls[0]) == z3.SubString(secret, 0, z3.If(z3.Length(secret) < 72, z3.Length(secret), 72))
+
+
+from pyvc.contract import Bytes  # noqa: E402
+from pyvc.values import SStr  # noqa: E402
+
+CONTRACTS.append(Contract(
+    "bcrypt._NoBackend._calc_checksum", f"{B}::_NoBackend._calc_checksum",
+    params={"self": Obj(cls=(B, "bcrypt")), "secret": Bytes()},
+    setup=_nobackend_setup,
+    raises={"ValueError": None},
+    ensures=[("the first call loads the backend once and hands the caller's secret (first 72 bytes) to it exactly once, without re-entering the subclass's wrapper", _nobackend_post)],
+    descr="every secret; bcrypt-package backend loaded by the stub (class bases rebound as set_backend does)",
+))
+MUTANTS.append(("bcrypt lazy stub re-enters the most-derived _calc_checksum", B, "        return super(bcrypt, self)._calc_checksum(secret)", "        return self._calc_checksum(secret)", "refute", "_NoBackend"))
